@@ -105,7 +105,20 @@ impl Router {
             Message::Request(req) => {
                 let request = req;
                 let self_clone = self.clone();
-                let _ = std::thread::spawn(move || self_clone.on_request(request));
+                let _ = std::thread::spawn(move || {
+                    let id = request.id.clone();
+                    // a panicking handler must not leave the request unanswered
+                    let handled = panic::catch_unwind(panic::AssertUnwindSafe(|| {
+                        self_clone.on_request(request)
+                    }));
+                    if handled.is_err() {
+                        self_clone.respond(Response::new_err(
+                            id,
+                            ErrorCode::InternalError as i32,
+                            "error handling request".to_string(),
+                        ));
+                    }
+                });
                 false
             }
             Message::Notification(notification) => self.on_notification(notification),
@@ -159,6 +172,12 @@ impl Router {
                 method: "workspace/applyEdit".to_string(),
                 params: to_value(result).unwrap(),
             }));
+
+            self.respond(Response {
+                id: request.id,
+                result: Some(serde_json::Value::Null),
+                error: None,
+            });
 
             return false;
         }
